@@ -244,6 +244,17 @@ func init() {
 		var sc, cc [8]byte
 		copy(sc[:], unhx(a[3]))
 		copy(cc[:], unhx(a[4]))
+		if (len(a[0])+len(a[1])+len(a[2]))%3 == 0 {
+			// object history: built for another credential, then its exported fields are set to this one —
+			// what Hash()/ToHashcatString() return depends on the current field values only
+			n, err := ntlmv2.NewNTLMv2("DECOY.example", "decoy-user", "decoy-password", [8]byte{1, 2, 3, 4, 5, 6, 7, 8}, [8]byte{8, 7, 6, 5, 4, 3, 2, 1})
+			if err != nil {
+				return nil, err
+			}
+			n.Domain, n.Username, n.Password = string(unhx(a[2])), string(unhx(a[1])), string(unhx(a[0]))
+			n.ServerChallenge, n.ClientChallenge = sc, cc
+			return n, nil
+		}
 		return ntlmv2.NewNTLMv2(string(unhx(a[2])), string(unhx(a[1])), string(unhx(a[0])), sc, cc)
 	}
 	ticksOf := func(blob []byte) string {
